@@ -36,7 +36,7 @@ def gen_ops(rng, n, unix, buffered, cap):
     for j in range(n):
         r = rng.random()
         if unix and r < 0.12:
-            ops.append("L" if down else "l")
+            ops.append("L" if down else rng.choice("llc"))       # c: the listener closes its socket, the file stays
             down = not down
             continue
         if r < 0.25 and buffered:
@@ -50,10 +50,23 @@ def gen_ops(rng, n, unix, buffered, cap):
         if buffered and cap is not None and rng.random() < 0.3:
             # lengths around the capacity and the space left
             m = (b"e%d." % j) + b"y" * max(0, rng.choice([cap - 1, cap - 2, cap, cap // 2]) - 4)
-        ops.append("E" + hx(m))
+        ops.append(("P" if rng.random() < 0.1 else "E") + hx(m))   # P: emitted by a destructor of an unwinding thread
     if unix and down and rng.random() < 0.6:
         ops.append("L")
     return ",".join(ops) or "-"
+
+
+def outage_cases():
+    """buffered / unbuffered Unix sinks whose listener closes its socket but leaves the file (sends are refused with
+    ECONNREFUSED, not ENOENT), comes back, and the sink is flushed"""
+    a0, b0, c0 = "E" + hx(b"foo:1|c"), "E" + hx(b"barbaz:22|c"), "E" + hx(b"q:3|c")
+    cases = []
+    for cap in ("d", "8", "16"):
+        for q in ("q0", "q1"):
+            cases.append("BX %s %s %s" % (cap, q, ",".join([a0, "c", b0, c0, c0, "F", "L", "F", a0])))
+            cases.append("BX %s %s %s" % (cap, q, ",".join([a0, b0, "c", c0, b0, "L", c0, "F"])))
+    cases.append("X b q0 " + ",".join([a0, "c", b0, "L", c0]))
+    return cases
 
 
 def xl_cases():
@@ -87,6 +100,12 @@ def gen_cases(rng, n):
         cases.append("BX d %s E666f6f3a317c63,l,E6261723a327c63,F,L,F" % q)
     for k in (0, 1, 2):
         cases.append("UA %d E666f6f3a317c63,E6261723a327c63" % k)
+    # an outage in which the socket file stays (ECONNREFUSED, not ENOENT); emits made by a destructor of an unwinding thread
+    a0, b0, c0 = "E" + hx(b"foo:1|c"), "E" + hx(b"barbaz:22|c"), "E" + hx(b"q:3|c")
+    cases += outage_cases()
+    for fam, cfg in (("U", "b"), ("X", "b"), ("BU", "16"), ("BU", "d"), ("BX", "16"), ("BX", "d")):
+        for q in ("q0", "q1"):
+            cases.append("%s %s %s %s" % (fam, cfg, q, ",".join(["P" + a0[1:], b0, "P" + c0[1:]] + (["F", "P" + b0[1:]] if fam[0] == "B" else []))))
     # exact fills of the smallest buffers (a 1-byte buffer and the empty metric: the newline alone is as large as the
     # BufWriter's capacity and goes straight to the socket - C19's "or exactly fills the buffer")
     cases += ["BU 1 q0 E-", "BU 1 q0 E-,E-,F", "BX 1 q0 E-,E61,F,E-", "BU 2 q0 E61,E-,F", "BX 2 q0 E-,E-,E61"]
@@ -133,7 +152,7 @@ def gen_cases(rng, n):
         cases.append("XW " + spec)
     cases += ur_cases()
     cases += xl_cases()
-    cases += ["UA6 u", "UA6 16", "UA6 512", "UO u", "UO 32", "UO 512"]
+    cases += ["UA6 u", "UA6 16", "UA6 512", "UA4 u", "UA4 16", "UA4 512", "UE", "UO u", "UO 32", "UO 512"]
     cases += big_udp_cases()
     cases += stats_sample_cases(rng, max(10, n // 10))
     for _ in range(n):
@@ -149,9 +168,21 @@ def gen_cases(rng, n):
     return cases
 
 
+def plain_ops(case):
+    """`c` (the listener closes its socket but leaves the file: ECONNREFUSED instead of ENOENT) is an outage like `l`, and
+    `P<hex>` (an emit made by a destructor while its thread unwinds) is an emit like `E<hex>` - for the model and for
+    the clauses"""
+    t = case.split()
+    if len(t) != 4 or t[0] not in ("U", "X", "BU", "BX", "US", "UT", "BUS", "BUT"):
+        return case
+    ops = ["l" if o == "c" else ("E" + o[1:] if o[:1] == "P" else o) for o in t[3].split(",")]
+    return " ".join(t[:3] + [",".join(ops)])
+
+
 def without_samples(case):
     """`s` (read the statistics) is not an operation of the model: reading must change nothing, so the model runs the
     history with, in its place, the listener command that is a no-op in the current state (same `-` result)"""
+    case = plain_ops(case)
     t = case.split()
     if len(t) != 4 or "s" not in t[3].split(","):
         return case
@@ -188,7 +219,7 @@ def xw_as_model_case(case, obs):
     if t[0] in ("XS", "BXS", "XN", "BXN"):
         ops = ",".join(o for o in t[3].split(",") if o != "m")
         return ("X b q0 " if t[0] in ("XS", "XN") else "BX %s q0 " % t[1]) + ops
-    if t[0] in ("UR", "XL", "UA6", "UO") or (t[0] == "BU" and t[1].isdigit() and int(t[1]) > 65000):
+    if t[0] in ("UR", "XL", "UA6", "UA4", "UE", "UO") or (t[0] == "BU" and t[1].isdigit() and int(t[1]) > 65000):
         return "UA 0 -"          # judged on the implementation's observation only
     if t[0] != "XW":
         return case
@@ -255,6 +286,21 @@ def judge_ua6(t, obs):
     bad = []
     if int(parts["second"]):
         bad.append(("C13", "%s datagram(s) went to the second address of the list" % parts["second"]))
+    if t[0] == "UA4":
+        # the IPv4 sender cannot reach the IPv6 first address: nothing arrives anywhere, the unbuffered sink answers an
+        # error per emit, every attempt is a dropped packet and nothing counts as sent
+        st = [int(x) for x in parts["S"].split(".")]
+        if first:
+            bad.append(("C13", "an IPv4 socket delivered %d datagram(s) to an IPv6 address?" % len(first)))
+        if t[1] == "u":
+            if parts["R"].split(",")[:2] != ["e", "e"]:
+                bad.append(("C13", "emits to an unreachable first address returned %s, expected the socket's error twice" % parts["R"]))
+            want = [0, 0, len(b"six:1|c") + len("z\u00f6lf:12|ms".encode()), 2]
+            if st != want:
+                bad.append(("C14", "statistics %s after two sends refused by the socket (first address unreachable), expected %s" % (st, want)))
+        elif st[0] or st[1]:
+            bad.append(("C14", "statistics %s count sent packets although the first address is unreachable and nothing arrived" % st))
+        return bad
     payload = b"".join(first) if t[1] == "u" else b"".join(first).replace(b"\n", b"")
     if payload != b"six:1|c" + "z\u00f6lf:12|ms".encode() or (want is not None and first != want):
         bad.append(("C13", "the first address of the list (IPv6, followed by an IPv4 one) received %r (results %s)" % (first, parts["R"])))
@@ -283,6 +329,7 @@ def judge_uo(t, obs):
             bad.append(("C13", why))
             if t[1] != "u":
                 bad.append(("C06", why))
+                bad.append(("C05", why))
     if t[1] == "u":
         if res[:3] == ["k5", "e", "k5"]:
             want = [10, 2, big, 1]
@@ -361,12 +408,20 @@ def judge(case, obs):
         return judge_ur(t, obs)
     if t[0] == "XL":
         return judge_xl(t, obs)
-    if t[0] == "UA6":
+    if t[0] in ("UA6", "UA4"):
         return judge_ua6(t, obs)
+    if t[0] == "UE":
+        if obs != "ctor:inv,inv,inv":
+            return [("C13", "an address argument that yields no address: the three UDP constructors answered %s, expected an "
+                            "invalid-input error each" % obs[:100])] + ([("C20", "a UDP sink constructor panicked on an address argument "
+                                                                                 "that yields no address: %s" % obs[:100])] if "panic" in obs.lower() else [])
+        return []
     if t[0] == "UO":
         return judge_uo(t, obs)
     if obs.startswith("HARNESS-PANIC"):
         return [("C13", obs[:200]), ("C14", obs[:200])]
+    case = plain_ops(case)
+    t = case.split()
     if t[0] in ("ST", "UC"):
         parts = dict(x.split(":", 1) for x in obs.split("|"))
         if parts["S"] != parts["W"]:
@@ -525,7 +580,8 @@ def judge(case, obs):
             if ok:
                 used.update(ids)
             if not ok:
-                bad.append(("C13", "datagram %d (%d bytes) is neither whole lines within %d bytes nor an oversized metric alone" % (i, len(d), cap)))
+                for pid in ("C13", "C05"):       # C05 runs the large-capacity UDP families and picks its own
+                    bad.append((pid, "datagram %d (%d bytes) is neither whole lines within %d bytes nor an oversized metric alone" % (i, len(d), cap)))
                 break
         # a flush that returned Ok while the listener is up: every metric acknowledged before it has reached the
         # listener by then (N: datagrams received after each op)
@@ -544,8 +600,9 @@ def judge(case, obs):
                     have = b"".join(dg[:seen[j]])
                     missing = [m for m in acked if m not in have]
                     if missing:
-                        bad.append(("C13", "flush (op %d) returned Ok with the listener up, but %r, acknowledged earlier, had not "
-                                    "reached it (%d datagrams received so far)" % (j, missing[0][:40], seen[j])))
+                        for pid in ("C13", "C06", "C07"):        # C06/C07 run the outage families and pick theirs
+                            bad.append((pid, "flush (op %d) returned Ok with the listener up, but %r, acknowledged earlier, had not "
+                                        "reached it (%d datagrams received so far)" % (j, missing[0][:40], seen[j])))
                         break
         # greedy at the level of the real sink: while what has been emitted since the last write fits the configured
         # capacity, an emit puts nothing on the wire (listener always there, no queue in between)
@@ -621,7 +678,7 @@ def run_sock_check(prop, tier, seed):
         for i, c in enumerate(cases):
             if c.startswith("XW"):
                 impl[i], model[i] = xw_views(c, impl[i], model[i])
-            elif c.split()[0] in ("UR", "XL", "UA6", "UO") or (c.startswith("BU ") and c.split()[1].isdigit() and int(c.split()[1]) > 65000):
+            elif c.split()[0] in ("UR", "XL", "UA6", "UA4", "UE", "UO") or (c.startswith("BU ") and c.split()[1].isdigit() and int(c.split()[1]) > 65000):
                 model[i] = impl[i]                 # judged, not modelled
             elif c.split()[0] in ("XS", "BXS", "XN", "BXN"):
                 # which listener got what is judged, not modelled; the `-` of op m is not in the model's results
